@@ -13,8 +13,10 @@ import (
 	"path/filepath"
 	"sort"
 	"syscall"
+	"time"
 
 	"github.com/thomasjungblut/go-sstables/memstore"
+	"github.com/thomasjungblut/go-sstables/simpledb"
 	"github.com/thomasjungblut/go-sstables/skiplist"
 	"github.com/thomasjungblut/go-sstables/sstables"
 )
@@ -24,9 +26,9 @@ import (
 type c11Tbl struct {
 	Mode   string    `json:"mode"` // merge | compact
 	Tables [][]tblKV `json:"tables"`
-	Victim int       `json:"victim"` // table whose data file is cut
-	Cut    int       `json:"cut"`    // number of records kept in the victim's data file
-	Zeros  bool      `json:"zeros"`  // pad the cut file with zeros to its old length
+	Victim int       `json:"victim"`         // table whose data file is cut
+	Cut    int       `json:"cut"`            // number of records kept in the victim's data file
+	Zeros  bool      `json:"zeros"`          // pad the cut file with zeros to its old length
 	Seek   bool      `json:"seek,omitempty"` // the inputs are random-access iterators (ScanStartingAt / ScanRange), not full scans
 	Mid    int       `json:"mid,omitempty"`  // cut this many bytes into record Cut instead of at its first byte
 	// observations
@@ -311,12 +313,15 @@ type c11Compact struct {
 	// observations, one per limit
 	CycleErr []bool   `json:"cycle_err"`
 	Bad      []string `json:"bad"` // "" or what is wrong after the restart
-	Fatal    string   `json:"fatal,omitempty"`
+	// the same failing cycle on the real background goroutine (compaction ticker): the process has to stop
+	Tick  []string `json:"tick,omitempty"` // per probed limit: "stopped" | "compacted" | "swallowed" | other trouble
+	Fatal string   `json:"fatal,omitempty"`
 }
 
 type compactChildArgs struct {
-	Dir   string `json:"dir"`
-	Limit int    `json:"limit"`
+	Dir    string `json:"dir"`
+	Limit  int    `json:"limit"`
+	Ticker bool   `json:"ticker,omitempty"`
 }
 
 func compactChild(args []string) int {
@@ -325,6 +330,25 @@ func compactChild(args []string) int {
 	_ = fs.Parse(args)
 	var a compactChildArgs
 	childArgs(*in, &a)
+	if a.Ticker {
+		db, err := simpledb.NewSimpleDB(a.Dir, simpledb.MemstoreSizeBytes(1<<30), simpledb.CompactionFileThreshold(1), simpledb.CompactionMaxSizeBytes(5<<30),
+			simpledb.CompactionRatio(1), simpledb.CompactionRunInterval(40*time.Millisecond), simpledb.WriteBufferSizeBytes(4096), simpledb.ReadBufferSizeBytes(4096))
+		if err == nil {
+			err = db.Open()
+		}
+		if err != nil {
+			fmt.Println("OPENERR", err)
+			return 0
+		}
+		signal.Ignore(syscall.SIGXFSZ)
+		lim := syscall.Rlimit{Cur: uint64(a.Limit), Max: uint64(a.Limit)}
+		must(syscall.Setrlimit(syscall.RLIMIT_FSIZE, &lim))
+		time.Sleep(700 * time.Millisecond)
+		fmt.Println("TICKALIVE")
+		err = db.Close()
+		fmt.Println("TICKCLOSED", err)
+		return 0
+	}
 	r := &dbRunner{dir: a.Dir}
 	if err := r.open(dbOpts{MemstoreBytes: 1 << 30, Threshold: 1, MaxSize: 5 << 30, RatioPct: 100, WBuf: 4096, RBuf: 4096}); err != nil {
 		fmt.Println("OPENERR", err)
@@ -413,11 +437,58 @@ func (c *c11Compact) Exec() {
 		}
 		c.Bad = append(c.Bad, bad)
 	}
+	// the background goroutine: three of the limits under which the synchronous cycle failed
+	c.Tick = nil
+	var failing []int
+	for i, e := range c.CycleErr {
+		if e && c.Bad[i] == "" {
+			failing = append(failing, i)
+		}
+	}
+	if len(failing) > 3 {
+		failing = []int{failing[0], failing[len(failing)/2], failing[len(failing)-1]}
+	}
+	countTables := func(d string) int {
+		n := 0
+		ents, _ := os.ReadDir(d)
+		for _, e := range ents {
+			if e.IsDir() && len(e.Name()) > 8 && e.Name()[:8] == "sstable_" && !bytes.Contains([]byte(e.Name()), []byte("compaction")) {
+				n++
+			}
+		}
+		return n
+	}
+	for _, i := range failing {
+		work := filepath.Join(base, "tick")
+		os.RemoveAll(work)
+		must(copyTree(r.dir, work))
+		before := countTables(work)
+		a, _ := json.Marshal(compactChildArgs{Dir: work, Limit: c.Limits[i], Ticker: true})
+		out, err := exec.Command(self, "c11compact", "--args", string(a)).CombinedOutput()
+		switch {
+		case bytes.Contains(out, []byte("OPENERR")):
+			c.Tick = append(c.Tick, "the prepared directory did not open: "+string(out))
+		case err != nil || !bytes.Contains(out, []byte("TICKCLOSED")):
+			c.Tick = append(c.Tick, "stopped")
+		case countTables(work) < before:
+			c.Tick = append(c.Tick, "compacted")
+		default:
+			c.Tick = append(c.Tick, "swallowed")
+		}
+	}
 }
 
 func (c *c11Compact) Oracle() (bool, string) {
 	if c.Fatal != "" {
 		return false, c.Fatal
+	}
+	for _, t := range c.Tick {
+		if t != "stopped" && t != "compacted" {
+			if t == "swallowed" {
+				t = "every compaction cycle of the background goroutine failed under a file size limit, but the process went on and Close returned as if nothing had happened (the failure was neither returned nor did it stop the process)"
+			}
+			return false, t
+		}
 	}
 	for i, b := range c.Bad {
 		if b != "" {
@@ -612,3 +683,122 @@ func (c *c11Recover) Nontrivial() bool {
 }
 func (c *c11Recover) Kind() string { return "recovery/rlimit" }
 func (c *c11Recover) Evals() int   { return len(c.Limits) }
+
+// ---- C11, system level: a memstore flush that fails on the real background goroutine (the data file of the next
+// table is a symlink to /dev/full): the process has to stop (or the failure has to reach a caller) - it must not go
+// on, block its callers for ever, or close as if nothing had happened
+
+type c11BgFlush struct {
+	NPuts  int    `json:"nputs"`
+	ValLen int    `json:"val_len"`
+	File   string `json:"file"` // which file of the table cannot be written
+	// observations
+	Outcome string `json:"outcome"` // stopped | hung | closed-silently | closed-with-error | flush did not fail
+	Out     string `json:"out,omitempty"`
+	Fatal   string `json:"fatal,omitempty"`
+}
+
+type bgFlushArgs struct {
+	Dir    string `json:"dir"`
+	NPuts  int    `json:"nputs"`
+	ValLen int    `json:"val_len"`
+	File   string `json:"file"`
+}
+
+func bgFlushChild(args []string) int {
+	fs := flag.NewFlagSet("c11bgflush", flag.ExitOnError)
+	in := fs.String("args", "", "json")
+	_ = fs.Parse(args)
+	var a bgFlushArgs
+	childArgs(*in, &a)
+	db, err := simpledb.NewSimpleDB(a.Dir, simpledb.MemstoreSizeBytes(uint64(4*a.ValLen)), simpledb.DisableCompactions(), simpledb.WriteBufferSizeBytes(4096), simpledb.ReadBufferSizeBytes(4096))
+	if err == nil {
+		err = db.Open()
+	}
+	if err != nil {
+		fmt.Println("OPENERR", err)
+		return 0
+	}
+	// the next tables' directories, with one file that cannot be written
+	for g := 0; g < 4; g++ {
+		d := filepath.Join(a.Dir, fmt.Sprintf(simpledb.SSTablePattern, g))
+		must(os.MkdirAll(d, 0755))
+		must(os.Symlink("/dev/full", filepath.Join(d, a.File)))
+	}
+	go func() {
+		time.Sleep(4 * time.Second)
+		fmt.Println("HUNG")
+		os.Exit(3)
+	}()
+	for i := 0; i < a.NPuts; i++ {
+		v := bytes.Repeat([]byte{byte('a' + i%26)}, a.ValLen)
+		if err := db.PutBytes([]byte(fmt.Sprintf("key-%03d", i)), v); err != nil {
+			fmt.Println("PUTERR", i, err)
+			return 0
+		}
+	}
+	fmt.Println("PUTSDONE")
+	time.Sleep(300 * time.Millisecond)
+	err = db.Close()
+	fmt.Println("CLOSED", err)
+	return 0
+}
+
+func init() { subcommands["c11bgflush"] = bgFlushChild }
+
+func (c *c11BgFlush) Exec() {
+	defer func() {
+		if r := recover(); r != nil {
+			c.Fatal = fmt.Sprint("panic: ", r)
+		}
+	}()
+	c.Fatal, c.Outcome, c.Out = "", "", ""
+	base := tmpDir("c11b-")
+	defer os.RemoveAll(base)
+	dir := filepath.Join(base, "db")
+	must(os.MkdirAll(dir, 0755))
+	self, _ := os.Executable()
+	a, _ := json.Marshal(bgFlushArgs{Dir: dir, NPuts: c.NPuts, ValLen: c.ValLen, File: c.File})
+	out, err := exec.Command(self, "c11bgflush", "--args", string(a)).CombinedOutput()
+	c.Out = string(out)
+	if len(c.Out) > 600 {
+		c.Out = c.Out[:300] + " ... " + c.Out[len(c.Out)-300:]
+	}
+	switch {
+	case bytes.Contains(out, []byte("OPENERR")):
+		c.Fatal = "the fresh directory did not open: " + c.Out
+	case bytes.Contains(out, []byte("HUNG")):
+		c.Outcome = "hung"
+	case bytes.Contains(out, []byte("PUTERR")):
+		c.Outcome = "closed-with-error"
+	case err != nil:
+		c.Outcome = "stopped"
+	case bytes.Contains(out, []byte("CLOSED <nil>")):
+		c.Outcome = "closed-silently"
+		if !bytes.Contains(out, []byte("error while")) {
+			c.Outcome = "flush did not fail"
+		}
+	case bytes.Contains(out, []byte("CLOSED")):
+		c.Outcome = "closed-with-error"
+	default:
+		c.Outcome = "stopped"
+	}
+}
+
+func (c *c11BgFlush) Oracle() (bool, string) {
+	if c.Fatal != "" {
+		return false, c.Fatal
+	}
+	switch c.Outcome {
+	case "hung":
+		return false, fmt.Sprintf("the flush of a memstore failed on the background goroutine (%s cannot be written): the process did not stop and no call returned an error - a later write blocked for ever", c.File)
+	case "closed-silently":
+		return false, fmt.Sprintf("the flush of a memstore failed on the background goroutine (%s cannot be written): every Put and Close returned success and the process ended normally", c.File)
+	}
+	return true, ""
+}
+func (c *c11BgFlush) Sx() string { return "" }
+func (c *c11BgFlush) Nontrivial() bool {
+	return c.Outcome == "stopped" || c.Outcome == "closed-with-error"
+}
+func (c *c11BgFlush) Kind() string { return "flush/background/" + c.File }
